@@ -6,9 +6,12 @@ def ds_digests_supported : List Nat := [1, 2, 4]
 def ede_codes : List Nat := [9, 6, 10, 7, 0, 0, 9, 6, 6, 9, 0, 6, 0, 6, 12, 6]
 def err_classes : List String := ["nokey", "missing", "nosigs", "period", "alg", "badsig", "noksk", "mismatchds", "convert", "nodnskey", "emptyds", "dsrecords", "anchors", "wildcard", "nsecmissing", "denial"]
 def rcode_servfail : Nat := 2
-def shape_anchor_gate_answer : Bool := false
+def shape_anchor_gate_answer : Bool := true
 def shape_anchor_gate_authority : Bool := true
 def shape_anchor_gate_validateDelegation : Bool := true
+def shape_bare_denials_go_through_authority : Bool := true
+def shape_root_ds_from_anchors_answer : Bool := true
+def shape_root_ds_from_anchors_authority : Bool := true
 def shape_signer_checked_before_findds_answer : Bool := true
 def shape_signer_checked_before_findds_authority : Bool := true
 def shape_signer_checked_before_findds_validateDelegation : Bool := true
